@@ -47,6 +47,15 @@ starrocks_dialect.update_keywords_set_from_multiline_string(
     "reserved_keywords", starrocks_reserved_keywords
 )
 
+# Keywords which grammar elements of this dialect (including inherited
+# ones) refer to, but which are in neither keyword set.
+starrocks_dialect.sets("unreserved_keywords").update(
+    [
+        "BITMAP",
+        "OPTIMIZER_COSTS",
+    ]
+)
+
 
 # Add angle bracket pairs for complex type support (ARRAY, MAP, STRUCT)
 starrocks_dialect.bracket_sets("angle_bracket_pairs").update(
@@ -269,7 +278,7 @@ class PartitionSegment(BaseSegment):
                                     Sequence(
                                         Bracketed(
                                             Bracketed(Delimited(Ref("LiteralGrammar"))),
-                                            ",",
+                                            Ref("CommaSegment"),
                                             Bracketed(Delimited(Ref("LiteralGrammar"))),
                                         )
                                     ),
